@@ -56,49 +56,52 @@ Definition outcome_matches (o : outcome) (e : option errk) : bool :=
 
 Definition empty_obs : ostate := ([], [], [], None, None).
 
-(* a case: the history, with what the implementation showed after every
-   step (the outcome class and the abstract state).  The model is folded from
-   the empty field; every step must agree.  A step the model declares out of
-   its scope ends the comparison of that history (counted by the harness). *)
-Fixpoint check_steps (s : cstate) (last : ostate) (l : list (op * option errk * obs)) : bool :=
+(* a case: the history in the register language (the field, views of it, views
+   of views ...), with what the implementation showed after every step (the
+   outcome class and the abstract state of the field).  The model is folded
+   from the empty field; every step must agree.  A step the model declares out
+   of its scope ends the comparison of that history (counted by the harness). *)
+Fixpoint check_steps (w : wstate) (last : ostate) (l : list (wop * option errk * obs)) : bool :=
   match l with
   | [] => true
   | (o, e, ob) :: r =>
-      let (s', out) := step s o in
+      let (w', out) := wstep w o in
       match out with
       | OutOfModel => true
       | _ =>
           let cur := match ob with Same => last | St x => x end in
-          outcome_matches out e && state_eqb s' cur && check_steps s' cur r
+          outcome_matches out e && state_eqb (root w') cur && check_steps w' cur r
       end
   end.
 
-Definition check_case (l : list (op * option errk * obs)) : bool := check_steps init empty_obs l.
+Definition check_case (l : list (wop * option errk * obs)) : bool := check_steps winit empty_obs l.
 
 (* diagnostics: index of the first disagreeing step (None = agree) *)
-Fixpoint first_bad (s : cstate) (last : ostate) (i : nat) (l : list (op * option errk * obs)) : option nat :=
+Fixpoint first_bad (w : wstate) (last : ostate) (i : nat) (l : list (wop * option errk * obs)) : option nat :=
   match l with
   | [] => None
   | (o, e, ob) :: r =>
-      let (s', out) := step s o in
+      let (w', out) := wstep w o in
       match out with
       | OutOfModel => None
       | _ =>
           let cur := match ob with Same => last | St x => x end in
-          if outcome_matches out e && state_eqb s' cur then first_bad s' cur (S i) r else Some i
+          if outcome_matches out e && state_eqb (root w') cur then first_bad w' cur (S i) r else Some i
       end
   end.
 
-Definition first_bad_case (l : list (op * option errk * obs)) := first_bad init empty_obs 0 l.
+Definition first_bad_case (l : list (wop * option errk * obs)) := first_bad winit empty_obs 0 l.
 
 (* number of steps before the model leaves its scope (= length if never) *)
-Fixpoint in_model_steps (s : cstate) (l : list op) : nat :=
+Fixpoint in_model_steps_from (w : wstate) (l : list wop) : nat :=
   match l with
   | [] => O
-  | o :: r => let (s', out) := step s o in
-              match out with OutOfModel => O | _ => S (in_model_steps s' r) end
+  | o :: r => let (w', out) := wstep w o in
+              match out with OutOfModel => O | _ => S (in_model_steps_from w' r) end
   end.
 
+Definition in_model_steps (l : list wop) : nat := in_model_steps_from winit l.
+
 (* the model state and outcome after a history (for diagnostics) *)
-Definition model_after (l : list op) : cstate * list outcome :=
-  fold_left (fun acc o => let (s', out) := step (fst acc) o in (s', (snd acc ++ [out])%list)) l (init, []).
+Definition model_after (l : list wop) : wstate * list outcome :=
+  fold_left (fun acc o => let (w', out) := wstep (fst acc) o in (w', (snd acc ++ [out])%list)) l (winit, []).
